@@ -424,4 +424,9 @@ def metaUpdate (m : Option (List (String × String))) (vals : List (String × St
   | false, none => some vals
   | false, some l => vals.foldl (fun acc e => metaSet acc e.1 e.2) (some l)
 
+/-- `Node.set_meta(key, value)` with the value as JSON text: `None` (`null`) removes the entry — every other
+value, falsy ones included (`0`, `false`, `""`, `[]`), is stored. -/
+def metaSetV (m : Option (List (String × String))) (k v : String) : Option (List (String × String)) :=
+  if v == "null" then metaClear m (some k) else metaSet m k v
+
 end Nutree
